@@ -313,3 +313,18 @@ pub fn max_stored_block(bytes: &[u8]) -> u64 {
     }
     m
 }
+
+/// file offsets of all blocks (walk of the length prefixes)
+pub fn block_offsets(bytes: &[u8]) -> std::collections::HashSet<u64> {
+    let mut set = std::collections::HashSet::new();
+    let Some(t) = vlib::fmt::parse_trailer(bytes) else { return set };
+    let limit = bytes.len() - t.size();
+    let mut off = 0usize;
+    while off + 8 <= limit {
+        set.insert(off as u64);
+        let mut a = [0u8; 8];
+        a.copy_from_slice(&bytes[off..off + 8]);
+        off = off.saturating_add(8).saturating_add(u64::from_be_bytes(a) as usize);
+    }
+    set
+}
